@@ -1,7 +1,7 @@
 (** C17 — property theorems only.  Each is closed by [exact] of a lemma from Proofs.v and
     followed by [Print Assumptions]; statements are pinned again in Pins.v. *)
 From Coq Require Import List NArith Bool.
-From JrV Require Import C17.Model C17.Proofs.
+From JrV Require Import C17.Model C17.Proofs C17.SinkProofs C17.FixedProofs.
 Import ListNotations.
 Open Scope N_scope.
 
@@ -97,3 +97,27 @@ Theorem C17_tiles_concat :
     concat (map (fun t => slice input (snd (fst t)) (snd t)) toks) = input.
 Proof. intros K input toks H. exact (tiles_concat input toks 0 H). Qed.
 Print Assumptions C17_tiles_concat.
+
+(** Sink::finish, for EVERY lexeme list and EVERY event list that has a single root and as
+    many Token events as there are non-trivia lexemes (the parser's invariant): no panic, and
+    the leaves of the tree are exactly the lexemes, in order — the tree prints back the input. *)
+Theorem C17_sink_lossless :
+  forall (T : Type) (lx : list (bool * T)) (evs : list event),
+    wf_events 0 false evs = true -> count_tokens evs = count_nontrivia lx ->
+    sink lx evs = Some lx.
+Proof. exact (@sink_lossless). Qed.
+Print Assumptions C17_sink_lossless.
+
+(** The REPAIRED offset_to_location (fixes/C17-offset-to-location.diff; model [Fixed]): for every
+    file — any mix of 1-4 byte characters — and every query whose offsets are character
+    boundaries (duplicates, any order, end of file included), every answer is the specified
+    one.  This is the theorem that is tied to the code once the fix has landed (the check
+    detects which model the code follows). *)
+Theorem C17_loc_fixed_general :
+  forall file offs i o,
+    (forall o', In o' offs -> exists k, (k <= length file)%nat /\ o' = blen (firstn k file)) ->
+    nth_error offs i = Some o ->
+    core (nth i (offset_to_location Fixed file offs) zero_loc) =
+    (o, spec_line (encode file) o, spec_col (encode file) o + 1, spec_line_start (encode file) o).
+Proof. exact loc_fixed_general. Qed.
+Print Assumptions C17_loc_fixed_general.
